@@ -364,7 +364,9 @@ func (st *State) elabIndex(env *Env, v SVal, t types.Type, iv SVal) (SVal, types
 	case *Term:
 		if t != nil {
 			if mt, ok := t.Underlying().(*types.Map); ok {
-				return st.mapGet(h, mt, x, idx), mt.Elem()
+				// Go semantics: an absent key (or nil map) reads as the zero value
+				has := And(Neq(x, IntLit(0)), st.mapHas(h, mt, x, idx))
+				return st.iteVal(has, st.mapGet(h, mt, x, idx), st.zeroVal(mt.Elem()), mt.Elem()), mt.Elem()
 			}
 		}
 		if x.Sort == SStr {
